@@ -17,7 +17,7 @@ import ast
 from itertools import product
 
 from ..absmachine import AbsMachine, Obj, Outcome, Raise, UNKNOWN, class_isinstance
-from ..astx import attr_writes, call_name, calls, method_name
+from ..astx import attr_writes, call_name, calls, method_name, walk_local
 from ..cfg import CFG
 from ..exctable import ExcTable
 from ..explore import Explorer
@@ -216,6 +216,14 @@ def check_scanner(chk: Check, repo: Repo) -> None:
         want = {not (svc == "SEARCH_RESPONSE" and core2)}
         chk.ob("plain-search-response-of-a-core-v2-device-is-never-used", fi.site(), got == want, f"{svc}, supported-families DIB {'present' if has_dib else 'absent'}, core v2 {core2}: descriptor built on {sorted(got)} of the paths; reference {sorted(want)}", key=f"scanner|{svc}|{has_dib}|{core2}")
     chk.count("scanner response cells", n_cells)
+    # a device that announces core v1 (or no core family) in its plain response but answers the extended search with
+    # secured service families: its plain response is an independent, "not secured" descriptor unless the scanner
+    # remembers which control endpoints answered extended.  Structural form: a membership test on a per-scanner
+    # collection that the extended path fills, deciding whether the plain response is used.
+    tests = [n for n in walk_local(fi.node) if isinstance(n, ast.Compare) and len(n.ops) == 1 and isinstance(n.ops[0], (ast.In, ast.NotIn)) and isinstance(n.comparators[0], ast.Attribute) and isinstance(n.comparators[0].value, ast.Name) and n.comparators[0].value.id == "self"]
+    filled = {ast.unparse(c.func.value) for c in calls(fi.node) if isinstance(c.func, ast.Attribute) and c.func.attr in ("add", "append") and isinstance(c.func.value, ast.Attribute)}
+    reconciled = any(ast.unparse(t.comparators[0]) in filled for t in tests)
+    chk.ob("plain-and-extended-answers-of-one-endpoint-are-reconciled", fi.site(), reconciled, "GatewayScanner._response_rec_callback " + ("remembers the endpoints that answered the extended search and drops their plain responses" if reconciled else "decides from the plain SearchResponse alone (its own core version): every datagram becomes an independent descriptor, the plain one with tunnelling/routing 'not secured'"), key="scanner|plain-after-extended")
 
 
 def check_parse_dibs(chk: Check, repo: Repo) -> None:
